@@ -570,6 +570,7 @@ class RecipeGen:
         self.values = []      # references to object-like values
         self.funcs = []       # references to callables: (ref, kind)
         self.wholes = []      # whole destructured results (tuples/lists of tracers): usable as call arguments only
+        self.regroups = []    # containers holding exactly the outputs of one multi-output application, in order
         self.oneshot = []     # values built from iterators: `list(map(...))` is inlined, so it is not captured by closures
                               # (the allow-list presumes that list()/tuple() can be repeated)
 
@@ -580,6 +581,8 @@ class RecipeGen:
         r = self.rng.random()
         if self.wholes and r < 0.05:
             return self.rng.choice(self.wholes)
+        if self.regroups and depth == 0 and r < 0.11:
+            return self.rng.choice(self.regroups)
         if r < 0.72 or depth > 1:
             return self.rng.choice(self.values)
         if r < 0.82:
@@ -628,6 +631,9 @@ class RecipeGen:
                 if kind in ("pair", "lst"):
                     self.values += [{"r": j, "k": 0}, {"r": j, "k": 1}]
                     self.wholes.append({"r": j})
+                    # all outputs of one application collected again, in a tuple and in a list (one of them has the container type of the
+                    # application's own output; the other must be displayed as a new container, not as the application's variable)
+                    self.regroups += [{"tuple": [{"r": j, "k": 0}, {"r": j, "k": 1}]}, {"list": [{"r": j, "k": 0}, {"r": j, "k": 1}]}]
                 else:
                     self.values.append({"r": j})
             elif r < 0.36:
@@ -690,7 +696,9 @@ class RecipeGen:
                     fn, _ = rng.choice([f for f in self.funcs if f[1] == "one"])
                     self.values.append({"r": self.add({"op": "call", "fn": fn, "args": [rng.choice(clos)], "cast": rng.choice([None, "one"])})})
         r = rng.random()
-        if r < 0.5:
+        if self.regroups and r < 0.12:
+            out = rng.choice(self.regroups)
+        elif r < 0.5:
             out = rng.choice(self.values[-4:])
         elif r < 0.8:
             out = {"tuple": [rng.choice(self.values[-6:]) for _ in range(rng.randint(1, 3))]}
@@ -989,7 +997,21 @@ ALIAS2_WITNESS = {"n_inputs": 1, "nodes": [{"op": "getitem", "obj": {"in": 0}, "
                   "output": {"tuple": [{"r": 2}, {"r": 2}]}}
 ALIAS2_ASSERT_WITNESS = {"n_inputs": 2, "nodes": [{"op": "getitem", "obj": {"in": 0}, "key": {"lit": 0}}, {"op": "assert", "xs": {"r": 0}, "cond": {"in": 1}, "msg": None},
                                                    {"op": "cast", "x": {"r": 1}}], "output": {"tuple": [{"r": 2}, {"r": 2}, {"r": 2}]}}
-WITNESSES = [("D6: one GetItem, three uses in the output", D6_WITNESS), ("D6: one GetItem with three consumers", D6_WITNESS_CALLS),
+# all outputs of one multi-output application collected again in the other container type (as the result and as an argument)
+
+
+def _regroup(fn, cont, as_arg):
+    nodes = [{"op": "import", "as": "m"}, {"op": "getattr", "obj": {"r": 0}, "key": fn}, {"op": "call", "fn": {"r": 1}, "args": [{"in": 0}], "kwargs": [], "cast": fn}]
+    grp = {cont: [{"r": 2, "k": 0}, {"r": 2, "k": 1}]}
+    if not as_arg:
+        return {"n_inputs": 1, "nodes": nodes, "output": grp}
+    nodes += [{"op": "getattr", "obj": {"r": 0}, "key": "f0"}, {"op": "call", "fn": {"r": 3}, "args": [grp], "kwargs": [], "cast": "one"}]
+    return {"n_inputs": 1, "nodes": nodes, "output": {"r": 4}}
+
+
+REGROUP_WITNESSES = [(f"outputs of a {'tuple' if fn == 'pair' else 'list'}-valued application regrouped in a {cont}{' as an argument' if a else ''}", _regroup(fn, cont, a))
+                     for fn in ("pair", "lst") for cont in ("tuple", "list") for a in (False, True)]
+WITNESSES = REGROUP_WITNESSES + [("D6: one GetItem, three uses in the output", D6_WITNESS), ("D6: one GetItem with three consumers", D6_WITNESS_CALLS),
              ("unary operator followed by an attribute access", UNARY_WITNESS),
              ("multi-use cast of a cast of a GetItem", ALIAS2_WITNESS), ("multi-use cast of an assert of a GetItem", ALIAS2_ASSERT_WITNESS)]
 
